@@ -222,9 +222,9 @@ def BagOK (dag : List Node) (bag : List (Nat × NT R)) : Prop :=
     q.1 / 2 < dag.length ∧ ∃ E, (table dag)[dag.length - 1 - q.1 / 2]? = some E ∧
       GoodPt dv sz L n F id p E ∧ Adm L F E q.2
 
-theorem catBack_children (v : Nat) (a : NT R) : ∀ (parts : List (Nat × Nat)) (off : Nat),
-    marg dv sz L n F id p (catBack (cs dv) sz L n F v a parts off id) =
-      ((catChildren (cs dv) sz L n F v () parts off).map
+theorem catBack_children (v : Nat) (V : Mask) (a : NT R) : ∀ (parts : List (Nat × Nat)) (off : Nat),
+    marg dv sz L n F id p (catBack (cs dv) sz L n F v V a parts off id) =
+      ((catChildren (cs dv) sz L n F v V parts off).map
         (fun c => marg dv sz L n F id p ((single (cs dv) c.1 (c.2 a)) id))).sum := by
   intro parts
   induction parts with
@@ -271,7 +271,7 @@ theorem step (nd : Node) (older : List Node) (hr : refsOK older.length nd = true
     constructor
     · simp only [send, entry, List.map_map, Function.comp_def, contrib_leaf, nodeExpr]
       simp only [tree, backward, List.isEmpty_nil, if_true]
-      exact (catBack_children dv sz L n F id p v a parts 0).symm
+      exact (catBack_children dv sz L n F id p v _ a parts 0).symm
     · intro q hq hodd
       simp only [send, entry, List.map_map, List.mem_map, Function.comp_def] at hq
       obtain ⟨c, _, rfl⟩ := hq
